@@ -70,6 +70,17 @@ pub fn gen(prop: &str, scen: &str, _k: u64, seed: u64, tier: &str) -> Case {
     case.set("stream_kind", r_in.below(6) as i64);
     if writer_role {
         case.wops = random_wops(&mut r_ops, len, true, 30);
+        if case.fmt == "lzma2mt" && r_in.pct(25) {
+            // a preset dictionary in the options of the MT writer (readers get the same one)
+            let plen = *r_in.pick(&[1usize, 300, case.opt.dict as usize, case.opt.dict as usize + 500]);
+            let mut p = simcore::case::InputSpec::new("text", plen, r_in.next_u64());
+            if r_in.pct(50) {
+                // the same kind of material as the data, so that matches into it are attractive
+                p = case.input.clone();
+                p.len = plen;
+            }
+            case.opt.preset = Some(p);
+        }
     } else if case.fmt == "lzma2mt" && case.knob("stream_kind") == 0 && r_in.pct(40) {
         // a stream of dependent chunks that relies on a preset dictionary
         let plen = *r_in.pick(&[1usize, 100, 3000, case.opt.dict as usize, case.opt.dict as usize + 500]);
@@ -91,7 +102,22 @@ pub fn gen(prop: &str, scen: &str, _k: u64, seed: u64, tier: &str) -> Case {
         }
         "mt.fault" => {
             if writer_role {
-                match r_f.below(3) {
+                match r_f.below(4) {
+                    3 => {
+                        // options only the worker rejects: the failure has to reach the caller
+                        case.fmt = "lzipmt".into();
+                        case.set("bad_options", 1);
+                        if r_f.pct(50) {
+                            case.opt.nice = *r_f.pick(&[0u32, 1, 274, 1000]);
+                        } else {
+                            case.opt.preset = Some(simcore::case::InputSpec::new("text", *r_f.pick(&[1usize, 5000, 1 << 20]), 3));
+                        }
+                        // few units and a flush before finish are the interesting histories
+                        if r_f.pct(50) {
+                            case.input.len = r_f.urange(1, 3000);
+                            case.wops = vec![WOp::W(usize::MAX), WOp::F];
+                        }
+                    }
                     0 => case.sink_faults.push(IoFault { at: r_f.below(12), kind: "err_p".into(), arg: r_f.below(6) }),
                     1 => case.sink_faults.push(IoFault { at: r_f.below(3), kind: "flush_err".into(), arg: r_f.below(6) }),
                     _ => case.sink_faults.push(IoFault { at: r_f.below(12), kind: "zero".into(), arg: 0 }),
@@ -650,6 +676,12 @@ fn exec_writer(case: &Case, data: &Arc<Vec<u8>>, ctx: &mut Ctx) -> Option<Violat
     match scen {
         "mt.drop" => None, // termination, leak and the worker bound are all this scenario judges
         "mt.fault" => {
+            if case.knob("bad_options") != 0 {
+                if w.error.is_none() {
+                    return Some(Violation::new("worker-failure-swallowed", comp(case, true), case.fmt.clone(), format!("options every worker rejects (nice_len {} / preset dictionary {:?}): write, flush and finish all returned Ok with {} bytes in the sink for {} input bytes", case.opt.nice, case.opt.preset.as_ref().map(|p| p.len), w.out.len(), data.len())));
+                }
+                return None;
+            }
             if fault_fired && w.error.is_none() {
                 return Some(Violation::new("sink-error-swallowed", comp(case, true), case.fmt.clone(), "the sink failed and every writer operation including finish returned Ok"));
             }
